@@ -101,7 +101,7 @@ extern "C" {
 }
 
 //> for method in type_def.methods:
-[[maybe_unused]] JNIEXPORT {{ method.jni.return_type_spec }} JNICALL {{ type_def.jni.jni_prefix }}_00024CppProxy_{{ "native_1" if not method.static }}{{ method.jni.name }}(JNIEnv* jniEnv, {{ "jclass" if method.static else "jobject, jlong nativeRef" }}
+[[maybe_unused]] JNIEXPORT {{ method.jni.return_type_spec }} JNICALL {{ type_def.jni.jni_prefix }}_00024CppProxy_{{ method.jni.native_symbol }}(JNIEnv* jniEnv, {{ "jclass" if method.static else "jobject, jlong nativeRef" }}
     /*>- for parameter in method.parameters -*/
     , {{ parameter.jni.typename }} {{ parameter.jni.name }}
     /*>- endfor -*/
